@@ -20,7 +20,9 @@ import (
 	"verifextract/ex"
 )
 
-func main() { ex.Main([]string{"ParserTable.lean", "ParserActs.lean", "ParserReader.lean"}, gen) }
+func main() {
+	ex.Main([]string{"ParserTable.lean", "ParserActs.lean", "ParserReader.lean", "ParserRun.lean"}, gen)
+}
 
 var stateNames = map[string]bool{
 	"ground": true, "escape": true, "escapeIntermediate": true, "csiEntry": true, "csiParam": true,
@@ -375,8 +377,9 @@ func gen(c *ex.Ctx) {
 	if f == nil {
 		return
 	}
-	genActs(c, f) // Gen/ParserActs.lean: written first and unconditionally (it degrades, never fails)
+	genActs(c, f)   // Gen/ParserActs.lean: written first and unconditionally (it degrades, never fails)
 	genReader(c, f) // Gen/ParserReader.lean: readRune and print as statement skeletons (degrades, never fails)
+	genRun(c, f)    // Gen/ParserRun.lean: run() and the timer callback as statement skeletons (degrades, never fails)
 	g := &gctx{c: c}
 	var sb strings.Builder
 	sb.WriteString("import VaxisModel.Model.ParserTable\n\nnamespace VaxisModel.Gen.ParserTable\nopen VaxisModel.Model.ParserTable\n\n")
@@ -1137,27 +1140,27 @@ func genReader(c *ex.Ctx, f *ast.File) {
 	}
 	fb := "err = p.r.UnreadRune() if err != nil { return eof } b, err := p.r.ReadByte() if err != nil { return eof } r = rune(b)"
 	readTable := map[string]string{
-		"r, size, err := p.r.ReadRune()":                 ".readRune",
-		"if p.escTimeout != nil { p.escTimeout.Stop() }": ".stopTimer",
+		"r, size, err := p.r.ReadRune()":                              ".readRune",
+		"if p.escTimeout != nil { p.escTimeout.Stop() }":              ".stopTimer",
 		"if r == unicode.ReplacementChar && size == 1 { " + fb + " }": "(.fallback true)",
 		"if r == unicode.ReplacementChar { " + fb + " }":              "(.fallback false)",
 		"if err != nil { return eof }":                                ".retEofOnErr",
 		"return r":                                                    ".retRune",
 	}
 	loopTable := map[string]string{
-		"nextRune, _, _ := p.r.ReadRune()":    ".peekRune",
-		"nextRune, size, _ := p.r.ReadRune()": ".peekRuneSized",
+		"nextRune, _, _ := p.r.ReadRune()":                                               ".peekRune",
+		"nextRune, size, _ := p.r.ReadRune()":                                            ".peekRuneSized",
 		"if nextRune == unicode.ReplacementChar && size == 1 { p.r.UnreadRune() break }": ".ifInvalidUnreadBreak",
-		"bldr.WriteRune(nextRune)":         ".writeNext",
-		"grapheme, rest, w, _ = uniseg.FirstGraphemeClusterInString(bldr.String(), -1)": ".firstCluster",
-		"if rest != \"\" { p.r.UnreadRune() break }":                                    ".ifRestUnreadBreak",
+		"bldr.WriteRune(nextRune)":                                                       ".writeNext",
+		"grapheme, rest, w, _ = uniseg.FirstGraphemeClusterInString(bldr.String(), -1)":  ".firstCluster",
+		"if rest != \"\" { p.r.UnreadRune() break }":                                     ".ifRestUnreadBreak",
 	}
 	printTable := map[string]string{
-		"bldr := strings.Builder{}":                        ".newBuilder",
-		"bldr.WriteRune(r)":                                ".writeFirst",
+		"bldr := strings.Builder{}":                          ".newBuilder",
+		"bldr.WriteRune(r)":                                  ".writeFirst",
 		"var ( rest string grapheme = bldr.String() w int )": ".declLocals",
-		"if w == 0 { w = uniseg.StringWidth(grapheme) }":   ".measureIfZero",
-		"p.emit(Print{Grapheme: grapheme, Width: w})":      ".emitPrint",
+		"if w == 0 { w = uniseg.StringWidth(grapheme) }":     ".measureIfZero",
+		"p.emit(Print{Grapheme: grapheme, Width: w})":        ".emitPrint",
 	}
 	var sb strings.Builder
 	sb.WriteString("import VaxisModel.Model.ParserReaderSk\n\nnamespace VaxisModel.Gen.ParserReader\nopen VaxisModel.Model.ParserReaderSk\n\n")
@@ -1198,4 +1201,119 @@ func genReader(c *ex.Ctx, f *ast.File) {
 	}
 	sb.WriteString("]\n\nend VaxisModel.Gen.ParserReader\n")
 	c.Write("ParserReader.lean", sb.String())
+}
+
+// ---------------------------------------------------------------------------------------------
+// Gen/ParserRun.lean: `Parser.run` and the callback of the Escape timer as statement skeletons, in
+// source order (vocabulary: Model/ParserRunSk.lean; theorems: Props/C08Order.lean).  Nothing here
+// fails the extractor: an unknown statement becomes `.unknown "<source>"`, an unknown overall shape
+// clears `runShapeOk` / leaves the lists empty.
+func genRun(c *ex.Ctx, f *ast.File) {
+	var unrec []string
+	runTable := map[string]string{
+		"r := p.readRune()":        ".callReadRune",
+		"p.mu.Lock()":              ".lock",
+		"p.mu.Unlock()":            ".unlock",
+		"p.escGen++":               ".bumpGen",
+		"p.state = anywhere(r, p)": ".anywhere",
+		"if p.state == nil { p.mu.Unlock() break outer }": ".ifNilUnlockBreak",
+		"if p.escTimeout != nil { p.escTimeout.Stop() }":  ".stopTimer",
+		"p.emit(EOF{})":      ".emitEOF",
+		"close(p.sequences)": ".closeSequences",
+		"p.closed <- true":   ".signalClosed",
+		"break outer":        ".recvCloseBreak",
+	}
+	conv := func(fn string, table map[string]string, list []ast.Stmt) []string {
+		var out []string
+		for _, st := range list {
+			src := norm(c.Src(st))
+			if t, ok := table[src]; ok {
+				out = append(out, t)
+			} else {
+				unrec = append(unrec, fn+": "+src)
+				out = append(out, "(.unknown "+ex.LeanStr(src)+")")
+			}
+		}
+		return out
+	}
+	var closeArm, dfltArm, tail []string
+	shape := false
+	if rf := ex.FindFunc(f, "Parser", "run"); rf != nil && rf.Body != nil && len(rf.Body.List) >= 1 {
+		if ls, ok := rf.Body.List[0].(*ast.LabeledStmt); ok && ls.Label.Name == "outer" {
+			if fs, ok := ls.Stmt.(*ast.ForStmt); ok && fs.Init == nil && fs.Cond == nil && fs.Post == nil && len(fs.Body.List) == 1 {
+				if sel, ok := fs.Body.List[0].(*ast.SelectStmt); ok && len(sel.Body.List) == 2 {
+					c0, ok0 := sel.Body.List[0].(*ast.CommClause)
+					c1, ok1 := sel.Body.List[1].(*ast.CommClause)
+					if ok0 && ok1 && c0.Comm != nil && norm(c.Src(c0.Comm)) == "<-p.close" && c1.Comm == nil {
+						shape = true
+						closeArm = conv("run", runTable, c0.Body)
+						dfltArm = conv("run", runTable, c1.Body)
+					}
+				}
+			}
+		}
+		if shape {
+			tail = conv("run", runTable, rf.Body.List[1:])
+		}
+	}
+	if !shape {
+		unrec = append(unrec, "run: not `outer: for { select { case <-p.close: …; default: … } }` + tail")
+	}
+	// the timer callback: the func literal given to time.AfterFunc in anywhere
+	cbTable := map[string]string{
+		"verifEscTimer(0)":              ".yield0",
+		"defer verifEscTimer(1)":        ".deferYield1",
+		"p.mu.Lock()":                   ".lock",
+		"defer p.mu.Unlock()":           ".deferUnlock",
+		"if p.escGen != gen { return }": ".ifGenChangedReturn",
+		"p.emit(C0(0x1B))":              ".emitEsc",
+		"p.state = ground":              ".setGround",
+		"p.ignoreST = false":            ".clearIgnoreST",
+	}
+	var cb []string
+	captures := false
+	if af := ex.FindFunc(f, "", "anywhere"); af != nil {
+		ast.Inspect(af.Body, func(n ast.Node) bool {
+			cc, ok := n.(*ast.CaseClause)
+			if !ok {
+				return true
+			}
+			for i, st := range cc.Body {
+				as, ok := st.(*ast.AssignStmt)
+				if !ok || !strings.HasPrefix(norm(c.Src(st)), "p.escTimeout = time.AfterFunc(") {
+					continue
+				}
+				if call, ok := as.Rhs[0].(*ast.CallExpr); ok && len(call.Args) == 2 {
+					if fl, ok := call.Args[1].(*ast.FuncLit); ok {
+						cb = conv("timer callback", cbTable, fl.Body.List)
+					}
+				}
+				if i > 0 && norm(c.Src(cc.Body[i-1])) == "gen := p.escGen" {
+					captures = true
+				}
+			}
+			return false
+		})
+	}
+	if cb == nil {
+		unrec = append(unrec, "anywhere: time.AfterFunc(…, func() { … }) not found")
+	}
+	var sb strings.Builder
+	sb.WriteString("import VaxisModel.Model.ParserRunSk\n\nnamespace VaxisModel.Gen.ParserRun\nopen VaxisModel.Model.ParserRunSk\n\n")
+	b2s := map[bool]string{true: "true", false: "false"}
+	fmt.Fprintf(&sb, "/-- `run` is `outer: for { select { case <-p.close: …; default: … } }` followed by the statements below -/\ndef runShapeOk : Bool := %s\n\n", b2s[shape])
+	fmt.Fprintf(&sb, "/-- body of `case <-p.close:` -/\ndef runClose : List RunStmt :=\n  [%s]\n\n", strings.Join(closeArm, ",\n   "))
+	fmt.Fprintf(&sb, "/-- body of the `default:` arm of the select -/\ndef runDefault : List RunStmt :=\n  [%s]\n\n", strings.Join(dfltArm, ",\n   "))
+	fmt.Fprintf(&sb, "/-- the statements of `run` after the loop -/\ndef runTail : List RunStmt :=\n  [%s]\n\n", strings.Join(tail, ",\n   "))
+	fmt.Fprintf(&sb, "/-- body of the callback given to `time.AfterFunc` in `anywhere` -/\ndef timerCallback : List CbStmt :=\n  [%s]\n\n", strings.Join(cb, ",\n   "))
+	fmt.Fprintf(&sb, "/-- `gen := p.escGen` is the statement in front of `p.escTimeout = time.AfterFunc(…)` (same arm, under the mutex) -/\ndef timerCapturesGen : Bool := %s\n\n", b2s[captures])
+	sb.WriteString("/-- statements of run / the timer callback that the extractor does not know -/\ndef unrecognised : List String := [")
+	for i, u := range unrec {
+		if i > 0 {
+			sb.WriteString(",\n  ")
+		}
+		sb.WriteString(ex.LeanStr(u))
+	}
+	sb.WriteString("]\n\nend VaxisModel.Gen.ParserRun\n")
+	c.Write("ParserRun.lean", sb.String())
 }
